@@ -84,6 +84,9 @@ type nodeMon struct {
 
 	// C16
 	outstanding map[uint64][]sentApp // follower -> entry-bearing MsgApps of the current epoch
+	// snapPending[f]: a MsgSnap was created for f and neither a
+	// ReportSnapshot nor a successful MsgAppResp from f was seen since
+	snapPending map[uint64]uint64
 	leadTerm    uint64
 	uwSum       uint64 // uncommitted-size window: sum of accepted payload bytes
 	uwFirst     uint64
@@ -232,7 +235,7 @@ func (n *Node) cachedEntry(idx uint64) *pb.Entry {
 
 func (m *Monitors) onStart(n *Node, st *raft.VerifState) {
 	s := m.s
-	n.mon = nodeMon{hbAck: map[uint64]int{}, outstanding: map[uint64][]sentApp{}, peerHeard: map[uint64]int{}}
+	n.mon = nodeMon{hbAck: map[uint64]int{}, outstanding: map[uint64][]sentApp{}, peerHeard: map[uint64]int{}, snapPending: map[uint64]uint64{}}
 	n.mon.lastRegCommit = st.FirstIndex - 1
 	n.mon.exp = hsTriple{st.Term, st.Vote, st.Commit}
 	n.mon.termFloor = st.Term
@@ -822,6 +825,22 @@ func (m *Monitors) stateChecks(n *Node, pre, post *raft.VerifState, c *Cause) {
 // c08State clears the outstanding-snapshot marker once the install is
 // acknowledged (sync: Advance; async: MsgStorageAppendResp delivered).
 func (m *Monitors) c08State(n *Node, pre, post *raft.VerifState, c *Cause) {
+	// coverage: storage acks that arrive after the node's term moved on
+	var acks []*pb.Message
+	switch c.Kind {
+	case "advance":
+		acks = pre.StepsOnAdvance
+	case "self":
+		acks = []*pb.Message{c.Msg}
+	}
+	for _, a := range acks {
+		if a != nil && a.GetType() == pb.MsgStorageAppendResp && a.GetTerm() < pre.Term {
+			m.s.Stats.inc("storage.ack_of_older_term")
+			if a.GetSnapshot() != nil {
+				m.s.Stats.inc("storage.snapshot_ack_of_older_term")
+			}
+		}
+	}
 	if n.mon.snapOutstanding == 0 {
 		return
 	}
@@ -839,6 +858,7 @@ func (m *Monitors) c08State(n *Node, pre, post *raft.VerifState, c *Cause) {
 
 func (m *Monitors) onReady(n *Node, rd *raft.Ready) {
 	s := m.s
+	s.recordReady(n, rd)
 	st := n.RN.VerifState()
 	// gather the async parts
 	var hs *pb.HardState
@@ -1644,7 +1664,26 @@ func (m *Monitors) c16State(n *Node, pre, post *raft.VerifState, c *Cause) {
 	}
 	if pre.State != raft.StateLeader || pre.Term != post.Term {
 		n.mon.outstanding = map[uint64][]sentApp{}
+		n.mon.snapPending = map[uint64]uint64{}
 		n.mon.uwSum, n.mon.uwTerm, n.mon.uwApplied = 0, post.Term, post.Applied
+	}
+	// message-history form of "no appends while a snapshot is pending"
+	// (independent of the Progress state machine): the pending mark is cleared
+	// by what ends a snapshot transfer - its reported outcome, or a successful
+	// append response from the follower.
+	switch {
+	case c.Kind == "reportsnap" && c.Msg != nil:
+		delete(n.mon.snapPending, c.Msg.GetFrom())
+	case c.Kind == "deliver" && c.Flight.M.GetType() == pb.MsgAppResp && !c.Flight.M.GetReject():
+		delete(n.mon.snapPending, c.Flight.From)
+	}
+	for f := range n.mon.snapPending {
+		pp := n.progressOf(post, f)
+		if pp == nil || (c.Kind == "applyconf" && pp.State != tracker.StateSnapshot) {
+			// removed from the configuration (or removed and re-added by one
+			// change: a fresh progress record)
+			delete(n.mon.snapPending, f)
+		}
 	}
 	// new MsgApps created in this touch
 	created := map[uint64][]*pb.Message{}
@@ -1652,6 +1691,22 @@ func (m *Monitors) c16State(n *Node, pre, post *raft.VerifState, c *Cause) {
 		for _, mm := range post.Msgs[len(pre.Msgs):] {
 			if mm.GetType() == pb.MsgApp {
 				created[mm.GetTo()] = append(created[mm.GetTo()], mm)
+			}
+		}
+	}
+	if c.Kind != "ready" && len(post.Msgs) > len(pre.Msgs) {
+		for _, mm := range post.Msgs[len(pre.Msgs):] {
+			to := mm.GetTo()
+			switch mm.GetType() {
+			case pb.MsgApp:
+				if si, pending := n.mon.snapPending[to]; pending {
+					m.viol([]string{"C16", "C09"}, "no_append_during_snapshot", "c16.append_during_snapshot",
+						"leader %d created a MsgApp (prev %d, %d entries) for %d although snapshot %d sent to it is still pending (no outcome reported, no successful append response)",
+						n.ID, mm.GetIndex(), len(mm.GetEntries()), to, si)
+				}
+			case pb.MsgSnap:
+				n.mon.snapPending[to] = mm.GetSnapshot().GetMetadata().GetIndex()
+				s.Stats.inc("flow.snapshot_pending")
 			}
 		}
 	}
